@@ -87,6 +87,17 @@ std::string xprobe_ring(const D& F, const D& G) {
     return os.str();
 }
 
+// Extension: the ring probe plus the structural accessors (exponent over the prime field, order over the base field, the modulus)
+template <class D>
+std::string probe_ext(const D& F) {
+    std::ostringstream os;
+    os << probe_ring<D>(F) << ' ' << F.exponent() << ' ' << F.order() << ' ' << F.irreducible().size() << ' ';
+    typename D::Element r; F.init(r);
+    Givaro::GivRandom g(12345);           // a thread-/call-private generator: the draw's SIZE is a function of the field's order
+    F.random(g, r); os << r.size();
+    return os.str();
+}
+
 // GFqDom: the ring probe plus the initialisation from a coefficient vector (p-adic digits)
 template <class D>
 std::string probe_gfq(const D& F) {
@@ -199,6 +210,7 @@ struct BoxT : Box {
 
 template <class D> using RingBox = BoxT<D, probe_ring<D>, xprobe_ring<D>>;
 template <class D> using GFqBox = BoxT<D, probe_gfq<D>, xprobe_ring<D>>;
+template <class D> using ExtBox = BoxT<D, probe_ext<D>, xprobe_ring<D>>;
 // QField<Rational> has const data members and therefore no assignment operator: "assignment" is replacement by a copy-constructed
 // object, which is all user code can do
 template <class D>
@@ -410,9 +422,9 @@ inline const std::map<std::string, Maker>& kinds() {
             // that meets an un-normalised member strips it, i.e. writes to the shared object)
             irr.resize(size_t(n + 2));
             for (int j = 0; j < n + 2; ++j) { base.init(e, Integer(j < n ? c[j] : 0)); irr[size_t(j)] = e; }
-            return new RingBox<E>(pd, irr); }},
+            return new ExtBox<E>(pd, irr); }},
         // extension of a NON-prime base field GF(3^2) resp. GF(2^2) (the exponent of the base differs from the order of the extension)
-        {"Extension_GFq_nonprime", [](int i) -> Box* { typedef GFqDom<int32_t> B; typedef Extension<B> E; typedef Poly1Dom<B, Dense> P;
+        {"Extension_GFq_nonprime", [](int i) -> Box* { typedef GFqDom<int64_t> B; typedef Extension<B> E; typedef Poly1Dom<B, Dense> P;
             typedef std::vector<B::Residu_t> V;
             B base = i ? B(2u, 2u, V{1, 1, 1}) : B(3u, 2u, V{2, 1, 1});
             // modulus of the extension: found once per process by the library's own search (deterministic default random state; the harnesses
@@ -421,7 +433,7 @@ inline const std::map<std::string, Maker>& kinds() {
             static bool have[2] = {false, false};
             P pd(base, Indeter("Y"));
             if (!have[i]) { E tmp(base, 3u, Indeter("Y")); irrs[i] = tmp.irreducible(); have[i] = true; }
-            return new RingBox<E>(pd, irrs[i]); }},
+            return new ExtBox<E>(pd, irrs[i]); }},
         {"Poly1Dom_Modular_int32", [](int i) -> Box* { return new PolyBox(i ? 65521 : 101); }},
         {"Values_Integer_Rational_RecInt", [](int i) -> Box* { return new ValueBox(i); }},
         {"IntRNSsystem", [](int i) -> Box* { return new IntRnsBox(i); }},
